@@ -198,7 +198,8 @@ def run(ctx):
         "evaluations": 2 * len(recs),
         "distinct_nontrivial": nne,
         "rule": "every subset of the %d-path pool (top-level and nested files, dot files and dot directories at top level and nested, names sorting "
-                "before/after each other, a directory named like a match) x %d patterns, each expanded twice through SpokFile.Run on fresh SpokFiles; "
+                "before/after each other, a directory named like a match) x %d patterns (`*`, `**`, `?`, character classes, alternation, also in directory segments), plus sampled trees with a visible, a hidden "
+                "and a nested symbolic link to a directory of the tree; each expanded twice through SpokFile.Run on fresh SpokFiles; "
                 "TLC compares with Glob!Expand. distinct_nontrivial = (tree, pattern) pairs whose expected expansion is non-empty (%d); %d pairs have "
                 "a hidden entry that matches the pattern" % (len(paths), len(PATS), nne, nhm),
         "model": {"module": "Glob", "distinct_states": m.distinct, "invariants": ["Sound", "NoHidden", "FileLocal"], "action_property": "Frame"},
